@@ -213,3 +213,7 @@ pub broadcast group group_be_bytes {
 pub open spec fn bytes_at(d: Seq<u8>, off: int, b: Seq<u8>) -> bool {
     0 <= off && off + b.len() <= d.len() && b == d.subrange(off, off + b.len())
 }
+
+/// F5: an allocation request of n elements is acceptable when it is bounded by the declared size of the enclosing box
+/// (itself bounded by the input length through the chain of `s > size` guards) or by a 16-bit field
+pub open spec fn alloc_bounded(n: int, size: int) -> bool { n <= size || n <= 0x1_0000 }
